@@ -106,8 +106,11 @@ fn run_one(host: &mut Popen, sc: &Scenario, script: Vec<u32>, rng: Option<Rng>, 
     let taken = sim.ch.taken.clone();
     let width = sim.ch.width.clone();
     sim.log(json!({"e":"end","choices":taken,"unrep":sim.unrepresentable}));
+    // Every scenario gets a fresh Communicator, so the virtual clock may restart: letting it accumulate the
+    // 1000-day scenarios wrapped the u64 nanosecond counter after a few thousand runs (seen as a spurious
+    // C04_bounded at the thorough tier: the library saw time jump backwards).
     unsafe {
-        EPOCH += sim.now + 1_000_000_000;
+        EPOCH = 1_000_000_000_000 + (EPOCH + 1_000_000_000) % 1_000_000_000_000;
     }
     out.append(&mut sim.trace);
     unsafe { csim::SIM = None };
